@@ -38,6 +38,7 @@ const (
 	c3RegHost  = "registry.test"
 	c3AuthHost = "auth.test"
 	c3CDNHost  = "cdn.test"
+	c3DeadHost = "dead.test"
 	c3Realm    = "https://auth.test/token"
 )
 
@@ -255,11 +256,28 @@ func (n *c3Net) RoundTrip(req *http.Request) (*http.Response, error) {
 				return c3Resp(req, 200, map[string]string{"Location": loc}, nil), nil
 			case "noloc":
 				return c3Resp(req, 200, nil, c3BytesBody([]byte("body"))), nil
+			case "noloc307":
+				return c3Resp(req, 307, nil, nil), nil
+			case "noloc301":
+				return c3Resp(req, 301, nil, nil), nil
 			case "badstatus":
 				return c3Resp(req, 302, map[string]string{"Location": loc}, nil), nil
+			case "badstatus301":
+				return c3Resp(req, 301, map[string]string{"Location": loc}, nil), nil
+			case "badstatus303":
+				return c3Resp(req, 303, map[string]string{"Location": loc}, nil), nil
+			case "badstatus308":
+				return c3Resp(req, 308, map[string]string{"Location": loc}, nil), nil
+			case "badloc":
+				return c3Resp(req, 307, map[string]string{"Location": "https://cdn.test/%zz"}, nil), nil
+			case "redirectdead":
+				return c3Resp(req, 307, map[string]string{"Location": "https://" + c3DeadHost + "/blob/" + dig}, nil), nil
 			}
 			return c3Resp(req, 307, map[string]string{"Location": loc}, nil), nil
 		})
+	case host == c3DeadHost:
+		n.nc++
+		return nil, errors.New("NETERR dead host")
 	case host == c3CDNHost && strings.HasPrefix(path, "/blob/"):
 		n.nc++
 		dig := strings.TrimPrefix(path, "/blob/")
@@ -330,6 +348,8 @@ func (n *c3Net) generic(req *http.Request, r c3Reply, pass func(arg string) (*ht
 		return resp, nil
 	case "notfound":
 		return c3Resp(req, 404, nil, c3BytesBody([]byte("not found"))), nil
+	case "follow": // a redirect the client follows: the same URL again (same host, so the direct-URL policy follows it too)
+		return c3Resp(req, 307, map[string]string{"Location": req.URL.String()}, nil), nil
 	}
 	return c3Resp(req, 500, nil, c3BytesBody([]byte("REGERR"))), nil
 }
@@ -555,7 +575,7 @@ func c3Classify(err error) string {
 		return "err:auth"
 	case strings.Contains(s, "REGERR"):
 		return "err:http"
-	case strings.Contains(s, "NETERR"):
+	case strings.Contains(s, "NETERR"), strings.Contains(s, "stopped after 10 redirects"):
 		return "err:net"
 	}
 	return "err:other:" + strings.ReplaceAll(s, " ", "_")
@@ -567,6 +587,8 @@ func c3PanicSite(msg string) string {
 		return "panic:challenge"
 	case strings.Contains(msg, "downloadBlob"):
 		return "panic:empty-digest"
+	case strings.Contains(msg, "downloadChunk"):
+		return "panic:download-chunk"
 	}
 	return "panic:other"
 }
